@@ -877,3 +877,18 @@ Lemma candidate_told_apart : forall s b c,
   (forall p, In p (s_places s) -> accepts p (c_loc c) (c_start c) (act_win c) = false) ->
   match_place s b c = None.
 Proof. intros s b c [H|H]; [exact (match_place_other_tag_any s b c H)|exact (match_place_no_place s b c H)]. Qed.
+
+(* finding C11-F8: what break_writer.rs writes for a REQUIRED break is never read back *)
+Lemma transit_stop_refused ix vid shift a rest added :
+  w_commute a = false -> w_transit a = true -> read_acts ix vid shift (a :: rest) added = inl ETransit.
+Proof. intros Hc Ht. cbn [read_acts]. rewrite Hc, Ht. reflexivity. Qed.
+
+Lemma break_without_optional_break_refused ix vid shift a rest added :
+  w_commute a = false -> w_transit a = false -> w_type a = "break"%string ->
+  lookup ix (vjob_id vid "break" shift 1) = None ->
+  read_acts ix vid shift (a :: rest) added = inl ECannotMatchVehicle.
+Proof.
+  intros Hc Ht Hty Hl. cbn [read_acts]. rewrite Hc, Ht. unfold try_match_point_job. rewrite Hty.
+  change (is_terminal "break") with false. change (is_customer "break") with false. change (is_vehicle_specific "break") with true.
+  cbn match. unfold try_match_vehicle_job. cbn [vcands]. rewrite Hl. reflexivity.
+Qed.
